@@ -1,4 +1,5 @@
 import UtilModel.Core.LTSHash
+import UtilModel.Core.LTSComplete
 import UtilModel.LinkedList.Props
 /-!
 # LinkedList — end-to-end transfer
@@ -13,5 +14,28 @@ theorem C12_accepted_linkedlist (cap fuel : Nat) (h : List LinkedList.Obs)
     (ha : LinkedList.model.acceptsH cap fuel h = true) : LinkedList.monC12.accepts h = true :=
   acceptedH_satisfies LinkedList.model (fun h => LinkedList.monC12.accepts h = true)
     LinkedList.C12_obs_linkedlist cap fuel h ha
+
+end UtilModel
+
+/-! ## completeness of the candidate lists — a REJECT is about the model -/
+namespace UtilModel
+
+theorem LinkedList.Ev.obs_obsEv (e : LinkedList.Ev) (o : LinkedList.Obs) (h : e.obs = some o) :
+    LinkedList.obsEv o = e := by
+  cases e <;> simp [LinkedList.Ev.obs] at h <;> subst h <;> rfl
+
+/-- every enabled internal event (`exec t`) is in `cands`, and `evsOf` is the unique event showing
+the observable -/
+theorem complete_linkedlist : LinkedList.model.Complete :=
+  ⟨fun s e s' hs ho => LinkedList.cands_complete s s' e hs ho,
+   fun _ e _ o _ ho => by simp [LinkedList.model, LinkedList.Ev.obs_obsEv e o ho]⟩
+
+/-- **A REJECT of the linkedlist correspondence is about the model.** -/
+theorem reject_sound_linkedlist (cap fuel : Nat) (h : List LinkedList.Obs) (i : Nat)
+    (hfail : (LinkedList.model.accRunH cap fuel [LinkedList.model.init] h 0 false 1).failedAt = some i)
+    (htr : (LinkedList.model.accRunH cap fuel [LinkedList.model.init] h 0 false 1).truncated = false) :
+    ¬ ∃ es s, LinkedList.model.run LinkedList.model.init es = some s ∧
+      es.filterMap LinkedList.model.obs = h :=
+  rejectH_sound LinkedList.model complete_linkedlist cap fuel h i hfail htr
 
 end UtilModel
